@@ -13,6 +13,8 @@ def main():
     r = sub.add_parser('replay')
     r.add_argument('path')
     sub.add_parser('selftest')
+    b = sub.add_parser('baseline')
+    b.add_argument('props', nargs='*')
     sub.add_parser('list')
     a = ap.parse_args()
     sys.setrecursionlimit(20000)
@@ -28,6 +30,15 @@ def main():
     if a.cmd == 'list':
         for k, v in sorted(check.registry().items()):
             print(k, v['families'])
+        sys.exit(0)
+    if a.cmd == 'baseline':
+        for pr in (a.props or sorted(check.registry())):
+            rc = check.run_check(pr, tier='quick', seed=0, strict=True)
+            if rc != 0:
+                print('baseline NOT written for %s (rc=%s)' % (pr, rc))
+                continue
+            check.write_baseline(pr)
+            print('baseline written for', pr)
         sys.exit(0)
     if a.cmd == 'selftest':
         from pyvc import selftest
